@@ -122,31 +122,13 @@ type capture struct {
 }
 
 func (c *capture) LogWarning(p ...string) {
-	c.diags = append(c.diags, jdiag{2, normalize(strings.Join(p, " "))})
+	c.diags = append(c.diags, jdiag{2, strings.Join(p, " ")})
 }
 func (c *capture) LogError(p ...string) {
 	c.errs++
-	c.diags = append(c.diags, jdiag{1, normalize(strings.Join(p, " "))})
+	c.diags = append(c.diags, jdiag{1, strings.Join(p, " ")})
 }
 func (c *capture) ErrorsLogged() bool { return c.errs > 0 }
-
-// normalize removes the one nondeterministic part of the auditor's messages: a non-nil *Type
-// printed with %v next to a nil one (pointer values inside). "&{...}" becomes "&".
-func normalize(m string) string {
-	const key = "types not equal: '"
-	i := strings.LastIndex(m, key)
-	if i < 0 {
-		return m
-	}
-	head, rest := m[:i+len(key)], m[i+len(key):]
-	if strings.HasPrefix(rest, "<nil>' -> '&{") {
-		return head + "<nil>' -> '&'"
-	}
-	if strings.HasPrefix(rest, "&{") && strings.HasSuffix(rest, "}' -> '<nil>'") {
-		return head + "&' -> '<nil>'"
-	}
-	return m
-}
 
 func expType(t *parser.Type) jty {
 	if t == nil {
